@@ -44,6 +44,7 @@ MC_API = mcc('MC_Api', 'MC_Api', invariants='Inv_P_C10 Inv_LiveTreesClean')
 
 MC_LOOPS = mcc('MC_Loops', 'MC_Loops', invariants='Inv_Bound Inv_Shrink Inv_Tab; PROPERTY Terminates (weak fairness)')
 
+MC_CSSTOK = mcc('MC_CssTok', 'MC_CssTok', invariants='(enumeration) every style sheet of at most MaxLen tokens over the alphabet is emitted and replayed: as user / agent sheet (Ok or CssParseError, no panic / hang) and inside <style> against the same document without it')
 MC_SELECTOR = mcc('MC_Css', 'MC_Selector', invariants='Inv_Selector (RefMatch = DoMatches on every node)')
 MC_CASCADE = mcc('MC_Css', 'MC_Cascade', invariants='Inv_Cascade (MaybeUpdate fold = RefCascade)')
 MC_HIDE = mcc('MC_Css', 'MC_Hide', invariants='Inv_Hide (render of styled d = render of DeleteHidden(d))')
@@ -123,14 +124,14 @@ PLANS = {
         assumptions=['for side-by-side tables the (letter, vector) pairs are compared as multisets', 'CSS colour annotations are covered by C19/C20'],
     ),
     'C05': dict(
-        fams=[('c05', dict(quick=3000, thorough=60000), {})],
+        fams=[('c05', dict(quick=5000, thorough=60000), {})],
         mc=[MC_TABLE],
         nontrivial=lambda rec: bool(rec.get('runs')) and rec['runs'][0]['res']['k'] == 'ok' and any(c[0] in (9516, 9524, 9532) for ln in rec['runs'][0]['res']['lines'] for c in ln),
         rule='MC: every regular table of the scope (<= 2 rows, 2-3 columns, all colspan tilings, cell classes empty/short/two-word/wide) at every width of the config, rendered step by step; random: regular tables 1..5 x 1..6 with tiling colspans, cells empty/short/long/multi-line/wide, nested regular tables, thead/tbody, widths 1..100, plain decorator; non-trivial = Ok with at least one junction glyph; distinct by sha256(runs)',
         assumptions=['the output is read as a display-column grid using the harness cell widths', 'a table without any bar and with ragged lines is read as the stacked layout'],
     ),
     'C06': dict(
-        fams=[('c06', dict(quick=2500, thorough=50000), {})],
+        fams=[('c06', dict(quick=5000, thorough=60000), {})],
         mc=[MC_TABLE],
         nontrivial=lambda rec: bool(rec.get('runs')) and rec['runs'][0]['res']['k'] == 'ok' and any(c[0] == 9474 for ln in rec['runs'][0]['res']['lines'] for c in ln),
         rule='as C05 without nesting; every non-empty cell is filled with copies of its own unique character, so that the strip (display columns) and the lines of every cell can be read off the output; MC additionally checks on every table of the scope that the column allocation fits the width, never starves a column that holds text, and that the shrink loop cannot get stuck (Inv_Alloc); non-trivial = Ok with at least one vertical bar; distinct by sha256(runs)',
@@ -163,11 +164,11 @@ PLANS = {
     ),
     'C17': dict(
         fams=[('c17', dict(quick=4000, thorough=80000), {})],
-        mc=[],
+        mc=[MC_CSSTOK],
         model_ok=False,
         timeout_ms=dict(quick=30000, thorough=120000),
         nontrivial=lambda rec: len(rec.get('runs', [])) >= 1 and rec['runs'][0]['res']['k'] in ('ok', 'csserr') and (len(rec['runs']) == 1 or any(len(x) > 2 and any(t[0] in ('Fg', 'Bg') for t in x[2]) for ln in rec['runs'][0]['res']['lines'] for x in ln) or rec['runs'][0]['route'] == 'string'),
-        rule='three shapes: (total) add_css / add_agent_css with truncations of valid sheets, token soup over the CSS token alphabet, byte-mutated sheets: Ok or CssParseError under a watchdog; (inert) a document with <style>s</style> (s without display / content / white-space / height / overflow) against the same document without it: same result kind and letters; (variant) a valid sheet of 1-4 colour rules in canonical spelling against a variant (spacing, comments, upper-case properties and hex digits, rgb() spelling, final ; dropped or doubled, unknown properties, @import / @media / @font-face / unparsable rule sets in between), via <style> or add_css: equal rich renderings; distinct by sha256(runs)',
+        rule='MC: every sequence of <= 3 (thorough 4) CSS tokens from an alphabet of 26 (30) token spellings, as user sheet, agent sheet and <style> content; random, three shapes: (total) add_css / add_agent_css with truncations of valid sheets, token soup over the CSS token alphabet, byte-mutated sheets: Ok or CssParseError under a watchdog; (inert) a document with <style>s</style> (s without display / content / white-space / height / overflow) against the same document without it: same result kind and letters; (variant) a valid sheet of 1-4 colour rules in canonical spelling against a variant (spacing, comments, upper-case properties and hex digits, rgb() spelling, final ; dropped or doubled, unknown properties, @import / @media / @font-face / unparsable rule sets in between), via <style> or add_css: equal rich renderings; distinct by sha256(runs)',
         assumptions=['the character-level tokenizer is explored, not modelled (DESIGN.md section 10)'],
     ),
     'C18': dict(
